@@ -48,6 +48,11 @@ type RConfig struct {
 	// from a spin point still counts as spinning.
 	SpinFollowers map[string]bool
 	MaxSteps      int
+	// SpinBurst > 0: goroutines in spin loops compete like any other for up to
+	// that many consecutive steps (the goroutine they wait for is stalled that
+	// long: preempted, copying, collecting garbage), before the scheduler goes
+	// back to preferring goroutines that can make progress.
+	SpinBurst int
 }
 
 // ROutcome describes a finished run.
@@ -181,6 +186,8 @@ func RunHBFree(cfg RConfig, workers []*RWorker) *ROutcome {
 		return cameFromSpin[w] && (cfg.SpinFollowers[pt] || strings.HasPrefix(pt, "auto."))
 	}
 	spinOnly := 0
+	spinStreak := 0 // consecutive steps given to spinning goroutines while others could run
+	burst := false
 	var hash uint64
 	for {
 		// A disabled point does not consume a decision.
@@ -210,6 +217,12 @@ func RunHBFree(cfg RConfig, workers []*RWorker) *ROutcome {
 		}
 		stats.state(strings.Join(state, ";"))
 		cand := nonSpin
+		if len(nonSpin) > 0 && len(nonSpin) < len(parked) && spinStreak < cfg.SpinBurst {
+			cand = parked
+			burst = true
+		} else {
+			burst = false
+		}
 		if len(cand) == 0 {
 			cand = parked
 			spinOnly++
@@ -257,6 +270,11 @@ func RunHBFree(cfg RConfig, workers []*RWorker) *ROutcome {
 			w = cand[int(t)%len(cand)]
 		}
 		_, pt := w.peek()
+		if burst && isSpinning(w, pt) {
+			spinStreak++
+		} else if !isSpinning(w, pt) {
+			spinStreak = 0
+		}
 		step := w.Name + "@" + pt
 		out.Trace = append(out.Trace, step)
 		hash = mix(hash, step)
